@@ -49,8 +49,7 @@ RULE = ("random histories of 1..12 (thorough: up to 40) reads / writes on a dens
         "with one full subscript as a 1-d vector (sparse_history reads); scalars as float / int / np.float64; one value "
         "per position as 1-d array or list (tensor) / column (sptensor); the empty dense start as tensor(), "
         "tensor(np.array([])) or tenzeros((0,)) (shape (0,) = no modes).  All of these must be accepted with the "
-        "oracle's result (sparse reads with an index list spelled as an array of two or more entries: recorded "
-        "finding, generated now and then).  Spellings the documentation does not name but that have one obvious "
+        "oracle's result.  Spellings the documentation does not name but that have one obvious "
         "meaning - a float or 0-d array as linear integer, lists of NumPy integers / mixed lists / column lists / "
         "float arrays / no entry at all as linear indices, a nested list of subscripts, tuples and lists of NumPy "
         "integers as index lists, np.int64 as value, a column / row (tensor) or 1-d / list / row (sptensor) of "
@@ -198,14 +197,6 @@ def plain_spelling(op):
         if "rhs" in op:
             op["rhs"].pop("form", None)
     return op
-
-
-def is_sparse_read_array_list(op):
-    """recorded finding K04-sparse-read-array-list: a sparse region READ whose index list is a NumPy array of two or more
-    entries"""
-    key = op["key"]
-    return op["op"] == "read" and key["k"] == "region" and any(
-        "list" in p and p.get("f") == "array" and len(p["list"]) > 1 for p in key["parts"])
 
 
 def pooled_rhs(pool, rhs, cls, tr=None):
@@ -479,8 +470,6 @@ def gen_key(rng, shape, write, d10=False, for_sparse=False, cls=None):
                 pf = pick(rng, [(None, 3), ("np", 1)]) if any(b is not None for b in p["slice"]) else None
             else:
                 pf = pick(rng, [(None, 3), ("array", 3), ("tuple", 0.3), ("nplist", 0.3)])
-                if pf == "array" and for_sparse and not write and len(p["list"]) > 1 and rng.random() < 0.93:
-                    pf = None  # recorded finding K04-sparse-read-array-list: generated now and then only
             if pf:
                 p["f"] = pf
     if f:
@@ -1095,7 +1084,7 @@ class SparseHistory(History):
         return [{"cls": "sparse", "start": {"shape": [2, 3], "subs": [[0, 0], [1, 0], [0, 1], [1, 1], [0, 2], [1, 2]],
                                             "vals": [1, 4, 2, 5, 3, 6]},
                  "ops": [{"op": "read", "key": {"k": "region", "parts": [{"list": [1, 1]}, {"slice": [None, None, None]}]}}]},
-                # ... and of "an index list spelled as a NumPy array of two or more entries in a sparse read"
+                # an index list spelled as a NumPy array of two or more entries in a sparse read (fixed ab1b50f)
                 {"cls": "sparse", "start": {"shape": [2, 3], "subs": [[0, 0], [1, 0], [0, 1], [1, 1], [0, 2], [1, 2]],
                                             "vals": [1, 4, 2, 5, 3, 6]},
                  "ops": [{"op": "read", "key": {"k": "region", "parts": [{"int": 1}, {"list": [0, 2], "f": "array"}]}}]}
@@ -1148,7 +1137,7 @@ class PairedHistory(Family):
             accepted = 0
             ref = start_oracle(st, "sparse")
             for i, op in enumerate(c["ops"]):
-                if op["key"]["k"] == "region" and (is_d10(op["key"]) or is_sparse_read_array_list(op) or (
+                if op["key"]["k"] == "region" and (is_d10(op["key"]) or (
                         op["op"] == "read" and has_repeated_list(op["key"]))):
                     continue  # listed findings, exercised in dense_history / sparse_history
                 # only operations of the property's domain (the oracle accepts them) drive the pair
